@@ -65,7 +65,7 @@ var scenarios = []schedrig.Scenario{
 		panicOnCall(1)
 		schedrig.TypeBytes(w, "x", "x")
 		untilQuit(w)
-		w.Vx.Close() // the application's deferred Close
+		w.Close() // the application's deferred Close
 	}},
 	{Name: "panic-with-type-ahead", Queue: 8, Caps: allCaps, Body: func(w *schedrig.World) {
 		w.ExpectPanic = injected
@@ -74,7 +74,7 @@ var scenarios = []schedrig.Scenario{
 		w.Vx.ShowCursor(1, 1, vaxis.CursorBeam)
 		w.Draw()
 		untilQuit(w)
-		w.Vx.Close()
+		w.Close()
 	}},
 	{Name: "panic-while-rendering", Queue: 8, Body: func(w *schedrig.World) {
 		w.ExpectPanic = injected
@@ -84,12 +84,12 @@ var scenarios = []schedrig.Scenario{
 		w.Draw()
 		w.Draw()
 		untilQuit(w)
-		w.Vx.Close()
+		w.Close()
 	}},
 	{Name: "sigterm-idle", Queue: 8, Caps: allCaps, Body: func(w *schedrig.World) {
 		vsched.AddEnv("SIGTERM", true, func() bool { return true }, func() { vsignal.Deliver(syscall.SIGTERM) })
 		untilQuit(w)
-		w.Vx.Close()
+		w.Close()
 	}},
 	{Name: "sigterm-type-ahead", Queue: 8, Body: func(w *schedrig.World) {
 		vsched.AddEnv("SIGTERM", true, func() bool { return true }, func() { vsignal.Deliver(syscall.SIGTERM) })
@@ -97,14 +97,14 @@ var scenarios = []schedrig.Scenario{
 		w.Vx.ShowCursor(2, 2, vaxis.CursorUnderline)
 		w.Draw()
 		untilQuit(w)
-		w.Vx.Close()
+		w.Close()
 	}},
 	{Name: "close-while-input-arrives", Queue: 8, Caps: allCaps, Body: func(w *schedrig.World) {
 		schedrig.TypeBytes(w, "keys", "ab")
 		schedrig.TypeBytes(w, "mouse", "\x1b[<0;3;3M")
 		w.Vx.ShowCursor(1, 1, vaxis.CursorBlock)
 		w.Draw()
-		w.Vx.Close()
+		w.Close()
 	}},
 	{Name: "suspend-resume-cycles", Queue: 8, Caps: allCaps, Body: func(w *schedrig.World) {
 		afterNew := w.T.ModeTable()
@@ -123,7 +123,7 @@ var scenarios = []schedrig.Scenario{
 				w.Failf("resume-differs", "modes after Resume differ from the modes after New in %v", d)
 			}
 		}
-		w.Vx.Close()
+		w.Close()
 	}},
 }
 
